@@ -63,6 +63,12 @@ def gen_history(rng: random.Random) -> dict:
             ops.append({'op': rng.choice(MODES), 'target': target, 'gen': rng.choice([None, None, rng.randint(0, 5)]),
                         'ghost': rng.random() < 0.08,
                         'interleave': round(rng.random(), 3) if rng.random() < 0.3 else None})
+    # transient read errors: opening a state / tag / any registry file fails once with EIO in the middle of a load
+    flt = random.Random(rng.random())
+    for op in ops:
+        if op['op'] in MODES and not op.get('ghost') and op.get('interleave') is None and flt.random() < 0.35:
+            op['readerr'] = round(flt.random(), 3)
+            op['rmatch'] = flt.choice([['.bin'], ['.bin'], ['.toml'], []])
     return {'releases': releases, 'ops': ops}
 
 
@@ -379,7 +385,30 @@ class Run:
             nstates = self.nstates.get(target, 1)
             pause = {'at': 1 + int(op['interleave'] * nstates), 'match': ['.bin']}
         child = self.incarnation()
-        res = child.call(kind, args, None, pause)
+        fault = None
+        if op.get('readerr') is not None and pause is None:
+            span = {'.bin': self.nstates.get(target, 1), '.toml': 3}.get((op['rmatch'] or [''])[0], 12)
+            fault = {'read_error': 1 + int(op['readerr'] * span), 'read_match': op['rmatch']}
+        res = child.call(kind, args, fault, pause)
+        if fault and any(e[1] == 'io-error-in-read' for e in res.oplog or []):
+            # a file of the registry could not be opened (once): the action may fail - or cope - but it never runs a
+            # persistent actor bare or on something else instead; the process lives on and serves the next action
+            self.stats['fault:io-error-in-read'] += 1
+            where += ' [one registry file failed to open with EIO]'
+            if not res.ok:
+                leftover = []
+                if os.path.exists(self.logfile):
+                    with open(self.logfile, encoding='utf-8') as handle:
+                        leftover = [json.loads(line) for line in handle if line.strip()]
+                    os.unlink(self.logfile)
+                bare = [r['actor'] for r in leftover if r.get('event') == 'apply' and r.get('state') is None
+                        and r['actor'] in set(self.persistent(target))]
+                if bare:
+                    raise base.Violation('no-state', f'{where}: the action failed ({res.value}) after actors '
+                                                     f'{sorted(set(bare))} had been applied without any state', mode=kind)
+                self.stats['io-error-in-read:action-failed'] += 1
+                return
+            self.stats['io-error-in-read:action-coped'] += 1
         if res.status == 'paused':
             # while this process sits between two of its state loads, another process trains and commits
             self.stats['fault:training-committed-between-state-loads'] += 1
@@ -741,6 +770,7 @@ def main(argv: list[str]) -> int:
         'distinct_pipeline_sets': len(shapes),
         'actions': {k[3:]: v for k, v in stats.items() if k.startswith('op:')},
         'fault_kinds_fired': {k[6:]: v for k, v in stats.items() if k.startswith('fault:')},
+        'io_error_in_read_outcomes': {k[17:]: v for k, v in stats.items() if k.startswith('io-error-in-read:')},
         'settled': {k[8:]: v for k, v in stats.items() if k.startswith('settled:')},
         'incarnations': stats.get('incarnations', 0), 'restarts': stats.get('restarts', 0),
         'runs_per_hour': round(nruns / wall * 3600) if wall else 0,
